@@ -1,4 +1,5 @@
 import DimodProofs.FeasCqm
+import DimodProofs.FeasOptions
 
 /-! # C08 — CQM feasibility and violation reports agree with the constraint definition
 
@@ -143,6 +144,111 @@ theorem exact_cqm_agrees (ops : List Cqm.Op) (hops : ∀ op ∈ ops, CqmP.OpOK o
   rw [evalCons_eq_def hwf, evalObj_eq_def hwf]
   exact ⟨h.1, h.2.1 r hr, h.2.2 r hr, checkFeasible_eq atol rtol _ r⟩
 
+/-! ## every option combination of `iter_violations` / `violations` (`skip_satisfied` × `clip` × `labels=`) -/
+
+/-- **Reported set / value = definition for every option combination.**  For every `skip_satisfied`, `clip` and `labels=`
+    (None, any selection, with repeats, with unknown labels), `iter_violations` as coded (three loops) yields, over the
+    constraints `labels=` selects and in that order, exactly `Feas.reportDef`: a constraint is listed iff `skip_satisfied` is
+    off or its violation (the definition's) is strictly positive, and the value listed is the violation, replaced by 0 when
+    `clip` is on and it is negative — in particular with BOTH options a strictly slack inequality is skipped, not listed with
+    0.  `violations(…)` (`dict(iter_violations(…))`) is the same list when constraint labels are distinct, as
+    `constraint_labels` guarantees. -/
+theorem options_eq_def (skip clip : Bool) (labels : Option (List Label)) (cs : List CEval) (r : Nat) :
+    iterViolationsL skip clip labels cs r = (reportDef skip clip (selectCons labels cs).1 r, (selectCons labels cs).2)
+    ∧ iterViolations skip clip cs r = reportDef skip clip cs r
+    ∧ ((cs.map (·.label)).Nodup → violationsDict skip clip cs r = reportDef skip clip cs r) := by
+  refine ⟨?_, iterViolations_eq_reportDef skip clip cs r, fun hnd => ?_⟩
+  · unfold iterViolationsL
+    rw [iterViolations_eq_reportDef]
+  · unfold violationsDict
+    rw [iterViolations_eq_reportDef]
+    exact dictOf_nodup _ (hnd.sublist (reportDef_labels_sublist skip clip cs r))
+
+/-- The reported *set*: with `skip_satisfied` (whatever `clip`) a pair is yielded iff it is (label, violation) of a
+    constraint whose violation is strictly positive; without it every constraint is yielded; with `clip` no yielded value
+    is negative, and a yielded value differs from the violation only where the violation is negative. -/
+theorem options_reported_set (clip : Bool) (cs : List CEval) (r : Nat) :
+    (∀ l v, (l, v) ∈ iterViolations true clip cs r ↔ ∃ c ∈ cs, c.label = l ∧ violation c r = v ∧ v > 0)
+    ∧ (∀ skip, (iterViolations false skip cs r).map Prod.fst = cs.map (·.label))
+    ∧ (∀ skip, ∀ p ∈ iterViolations skip true cs r, 0 ≤ p.2)
+    ∧ (∀ skip l v, (l, v) ∈ iterViolations skip clip cs r → ∃ c ∈ cs, c.label = l ∧ (v = violation c r ∨ (violation c r < 0 ∧ v = 0))) := by
+  refine ⟨fun l v => ?_, fun clip' => ?_, fun skip p hp => ?_, fun skip l v h => ?_⟩
+  · rw [iterViolations_eq_reportDef, mem_reportDef]
+    constructor
+    · rintro ⟨c, hc, hl, hs, hv⟩
+      have hpos := hs rfl
+      refine ⟨c, hc, hl, ?_, ?_⟩
+      · cases clip
+        · simpa using hv.symm
+        · simp only [if_true] at hv; rw [hv, maxR_of_pos hpos]
+      · cases clip
+        · simp only [Bool.false_eq_true, if_false] at hv; rw [hv]; exact hpos
+        · simp only [if_true] at hv; rw [hv, maxR_of_pos hpos]; exact hpos
+    · rintro ⟨c, hc, hl, hv, hpos⟩
+      refine ⟨c, hc, hl, fun _ => hv ▸ hpos, ?_⟩
+      cases clip
+      · simpa using hv.symm
+      · simp only [if_true]; rw [maxR_of_pos (hv ▸ hpos)]; exact hv.symm
+  · rw [iterViolations_eq_reportDef]
+    unfold reportDef
+    simp [List.map_map, Function.comp_def]
+  · rw [iterViolations_eq_reportDef] at hp
+    obtain ⟨l, v⟩ := p
+    obtain ⟨c, _, _, _, hv⟩ := (mem_reportDef skip true cs r l v).mp hp
+    simp only [if_true] at hv
+    rw [hv]
+    exact maxR_nonneg _
+  · rw [iterViolations_eq_reportDef] at h
+    obtain ⟨c, hc, hl, _, hv⟩ := (mem_reportDef skip clip cs r l v).mp h
+    refine ⟨c, hc, hl, ?_⟩
+    cases clip
+    · left; simpa using hv
+    · simp only [if_true] at hv
+      unfold maxR at hv
+      split at hv
+      · right; exact ⟨by assumption, hv⟩
+      · left; exact hv
+
+/-- **Tolerances over `Rat`** (any rationals — the documented defaults `1e-6`, `1e-8` taken as the exact values of those
+    floats included): satisfied iff `violation ≤ atol + rtol·|rhs|` with the mathematical absolute value; a violation exactly
+    at the tolerance is satisfied; enlarging either (non-negatively weighted) tolerance never turns a satisfied constraint
+    unsatisfied, so `check_feasible` is monotone in both. -/
+theorem tolerance_rat (atol rtol : Rat) (c : CEval) (r : Nat) :
+    (satisfied atol rtol c r = true ↔ violation c r ≤ atol + rtol * |c.rhs|)
+    ∧ (violation c r = atol + rtol * |c.rhs| → satisfied atol rtol c r = true)
+    ∧ (∀ atol' rtol', atol ≤ atol' → rtol ≤ rtol' → satisfied atol rtol c r = true → satisfied atol' rtol' c r = true)
+    ∧ (∀ atol' rtol' cs, atol ≤ atol' → rtol ≤ rtol' → checkFeasible atol rtol cs r = true → checkFeasible atol' rtol' cs r = true) := by
+  have habs : ∀ x : Rat, absR x = |x| := by
+    intro x
+    unfold absR
+    split
+    · rename_i h; exact (abs_of_neg h).symm
+    · rename_i h; exact (abs_of_nonneg (not_lt.mp h)).symm
+  have hiff : ∀ a b : Rat, (satisfied a b c r = true ↔ violation c r ≤ a + b * |c.rhs|) := by
+    intro a b
+    unfold satisfied tol
+    rw [habs]
+    exact decide_eq_true_iff
+  have hmono : ∀ (c : CEval) (a b a' b' : Rat), a ≤ a' → b ≤ b' → satisfied a b c r = true → satisfied a' b' c r = true := by
+    intro c a b a' b' ha hb h
+    unfold satisfied tol at h ⊢
+    rw [habs] at h ⊢
+    have h1 := of_decide_eq_true h
+    apply decide_eq_true
+    have : b * |c.rhs| ≤ b' * |c.rhs| := mul_le_mul_of_nonneg_right hb (abs_nonneg _)
+    linarith
+  refine ⟨hiff atol rtol, fun h => (hiff atol rtol).mpr (le_of_eq h), fun a' b' ha hb h => hmono c _ _ _ _ ha hb h, ?_⟩
+  intro a' b' cs ha hb h
+  rw [checkFeasible_eq] at h ⊢
+  unfold feasible at h ⊢
+  rw [List.all_eq_true] at h ⊢
+  intro c' hc'
+  have := h c' hc'
+  rcases Bool.or_eq_true _ _ |>.mp this with h1 | h2
+  · simp [h1]
+  · simp [hmono c' _ _ _ _ ha hb h2]
+
+
 /-! ## non-vacuity and the defects the model was built against -/
 
 /-- objective x + y, soft `x + y <= 1` (weight 2, linear), hard `x - y >= 0`, constant-only hard `3 <= 5` -/
@@ -168,5 +274,14 @@ example : (iterViolationsL false false (some [.str "hard", .str "soft", .str "ha
     ∧ (iterViolationsL false false (some []) demo 1) = ([], false)
     ∧ (iterViolationsL false false none demo 1).1.length = 3
     ∧ (iterConstraintDataL (some [.str "soft", .str "nope", .str "hard"]) demo 1).2 = true := by decide +kernel
+
+/-- the option logic is not vacuous: the collapsed single loop (clip test first, skip test in its `elif`) is a different
+    function — on row 2 (`soft`: 0 ≤ 1 with slack 1, `hard`: 0 ≥ 0 met exactly, `const`: 3 ≤ 5 with slack 2) with both options
+    it lists the two strictly slack inequalities with 0, the code as written lists nothing -/
+example : iterViolations true true demo 2 = [] ∧ reportDef true true demo 2 = []
+    ∧ iterViolationsOneLoop true true demo 2 = [(.str "soft", 0), (.str "const", 0)]
+    ∧ iterViolations false true demo 2 = [(.str "soft", 0), (.str "hard", 0), (.str "const", 0)]
+    ∧ iterViolations true false demo 1 = [(.str "hard", 1)]
+    ∧ violationsDict true true demo 1 = [(.str "hard", 1)] := by decide +kernel
 
 end C08
